@@ -30,11 +30,13 @@ import (
 	"encoding/json"
 	"errors"
 	"fmt"
+	"log/slog"
 	"os"
 	"os/exec"
 	"sort"
 	"strings"
 	"sync"
+	"sync/atomic"
 	"syscall"
 	"time"
 
@@ -44,6 +46,7 @@ import (
 	"github.com/kercylan98/vivid/pkg/log"
 	"github.com/kercylan98/vivid/pkg/ves"
 	"github.com/kercylan98/vivid/xverif/lib"
+	"github.com/reugn/go-quartz/quartz"
 )
 
 const (
@@ -66,6 +69,18 @@ const (
 	kKill
 	kRestart
 	kDump
+	kBlock   // a handler of the actor begins that does not return before kUnblock: its mailbox does not drain
+	kUnblock // that handler ends; sop.inner = what is done just before: kCancel / kClear / kExists inside the handler, kKill (the kill is enqueued while the handler still runs), kRestart (the handler panics), or -1
+	kHold    // the goroutines go-quartz starts for firings of (actor, ref) are suspended before their Tell
+	kRelease
+	kKillEnd // the end of a stop sequence that kKill (with slow > 0) began: the actor's child ends only now
+)
+
+// hook points of a stop sequence (termination or restart): the handlers that still run after it has begun
+const (
+	hOnKill      = iota // the OnKill handler
+	hChildKilled        // the handler of the child's OnKilled while the actor waits for it
+	hOwnKilled          // the actor's own OnKilled handler - the last user code of the incarnation
 )
 
 type sop struct {
@@ -77,14 +92,21 @@ type sop struct {
 	d       int // delay / interval in ms
 	valid   bool
 	payload uint64
+	cron    string    // kCron: the expression ("" = validCron, or one of the four fixed invalid ones when !valid)
+	inner   int       // kUnblock only
+	will    *[3][]sop // kKill / kRestart: what the actor's handlers do during the stop sequence (scheduler calls), per hook point
+	slow    int       // kKill: the actor's child delays its own termination by this many ms; the sequence ends at the kKillEnd op
 }
 
 type scenario struct {
 	kind   string
 	actors []string // names; path = "/" + name
+	child  []bool   // the actor spawns a child "k" in every OnLaunch (a stop sequence waits for it)
 	ops    []sop
 	end    int // nominal time of the final observation
 }
+
+func (sc scenario) hasChild(i int) bool { return i < len(sc.child) && sc.child[i] }
 
 func path(name string) string { return "/" + name }
 
@@ -117,7 +139,6 @@ type call struct {
 type srun struct {
 	sc        scenario
 	sys       vivid.ActorSystem
-	asys      *actor.System
 	refs      []vivid.ActorRef
 	actors    []*sactor
 	mu        sync.Mutex
@@ -134,30 +155,252 @@ type srun struct {
 	cronBad   []string    // violations seen around invalid Cron calls
 	unkCancel []string
 	rejected  []string
+	blockCh   []chan blockCmd // per actor: the command channel of its blocking handler
+	blocked   []bool
+	stopping  []bool // a stop sequence that waits for the actor's child is in progress
+	gates     *gateSet
+}
+
+// ---- flight control: busy receivers and suspended Tell goroutines ----
+// The firing of a job is not atomic in the code: go-quartz pops the job at the instant and starts a goroutine that runs
+// Scheduler.tell (a Debug log line "scheduler trigger", then ctx.Tell / ctx.TellSelf); the receiver's mailbox hands the
+// message to the behaviour later. Two harness controls stretch these two delays deterministically:
+//   block:  the receiver's mailbox goroutine sits in a handler (a closure waiting on a channel): firings queue up behind it;
+//   hold:   the actor's own logger (vivid.WithActorLogger, public API) suspends the goroutine at the "scheduler trigger"
+//           line of Scheduler.tell, i.e. after the pop and before the Tell.
+
+type blockCmd struct {
+	inner int
+	ref   string
+	res   chan blockRes
+}
+type blockRes struct {
+	code uint64
+	b    bool
+	at   time.Time
+}
+
+type gateSet struct {
+	mu   sync.Mutex
+	held map[string]chan struct{}
+	hits map[string]int
+}
+
+func newGateSet() *gateSet {
+	return &gateSet{held: map[string]chan struct{}{}, hits: map[string]int{}}
+}
+func gateKey(owner, ref string) string { return owner + "\x00" + ref }
+func (g *gateSet) hold(owner, ref string) {
+	g.mu.Lock()
+	if g.held[gateKey(owner, ref)] == nil {
+		g.held[gateKey(owner, ref)] = make(chan struct{})
+	}
+	g.mu.Unlock()
+}
+func (g *gateSet) release(owner, ref string) {
+	g.mu.Lock()
+	if ch := g.held[gateKey(owner, ref)]; ch != nil {
+		close(ch)
+		delete(g.held, gateKey(owner, ref))
+	}
+	g.mu.Unlock()
+}
+func (g *gateSet) releaseAll() {
+	g.mu.Lock()
+	for k, ch := range g.held {
+		close(ch)
+		delete(g.held, k)
+	}
+	g.mu.Unlock()
+}
+func (g *gateSet) pass(owner, ref string) {
+	g.mu.Lock()
+	g.hits[gateKey(owner, ref)]++
+	ch := g.held[gateKey(owner, ref)]
+	g.mu.Unlock()
+	if ch != nil {
+		<-ch
+	}
+}
+func (g *gateSet) hitCount(owner, ref string) int {
+	g.mu.Lock()
+	defer g.mu.Unlock()
+	return g.hits[gateKey(owner, ref)]
+}
+
+const triggerLine = "scheduler trigger" // the Debug line at the beginning of Scheduler.tell
+
+type gateLogger struct {
+	log.Logger
+	g     *gateSet
+	owner string
+}
+
+func (l *gateLogger) Debug(msg string, args ...any) {
+	if msg != triggerLine {
+		return
+	}
+	ref := ""
+	for _, a := range args {
+		if at, ok := a.(slog.Attr); ok && at.Key == "reference" {
+			ref = at.Value.String()
+		}
+	}
+	l.g.pass(l.owner, ref)
+}
+func (l *gateLogger) With(args ...any) log.Logger       { return l }
+func (l *gateLogger) WithGroup(group string) log.Logger { return l }
+
+// hookPresent: does Scheduler.tell still pass the logger line the hold control relies on? (a build of vivid without it
+// makes hold scenarios impossible; they are then left out, and the report says so)
+func hookPresent() bool {
+	g := newGateSet()
+	sys := bootstrap.NewActorSystem(vivid.WithActorSystemLogger(log.NewSilentLogger()))
+	if err := sys.Start(); err != nil {
+		return false
+	}
+	defer func() {
+		g.releaseAll()
+		done := make(chan struct{})
+		go func() { _ = sys.Stop(); close(done) }()
+		select {
+		case <-done:
+		case <-time.After(3 * time.Second):
+		}
+	}()
+	got := make(chan struct{}, 1)
+	_, err := sys.ActorOf(vivid.ActorFN(func(ctx vivid.ActorContext) {
+		switch ctx.Message().(type) {
+		case *vivid.OnLaunch:
+			_ = ctx.Scheduler().Once(ctx.Ref(), time.Millisecond, fire{1}, vivid.WithSchedulerReference("probe"))
+		case fire:
+			select {
+			case got <- struct{}{}:
+			default:
+			}
+		}
+	}), vivid.WithActorName("hook-probe"), vivid.WithActorLogger(&gateLogger{Logger: log.NewSilentLogger(), g: g, owner: "/hook-probe"}))
+	if err != nil {
+		return false
+	}
+	select {
+	case <-got:
+	case <-time.After(3 * time.Second):
+		return false
+	}
+	return g.hitCount("/hook-probe", "probe") == 1
 }
 
 type sactor struct {
-	r        *srun
-	idx      int
-	ctx      vivid.ActorContext
-	launches chan struct{}
-	killed   chan struct{}
+	r          *srun
+	idx        int
+	ctx        vivid.ActorContext
+	launches   chan struct{}
+	killed     chan struct{}
+	onKillDone chan struct{}
+	// set by the driver goroutine before it starts a stop sequence, read by the actor's handlers (ordered by the Tell / Kill)
+	will      *[3][]sop
+	hookRes   [3][]hookRes
+	childGate atomic.Pointer[chan struct{}] // when set: the child's OnKill handler returns only when it is closed (kKillEnd)
+}
+
+// the result of one scheduler call made inside a handler of the stop sequence
+type hookRes struct {
+	o    sop
+	c    *call
+	err  error
+	b    bool
+	at   time.Time
+	note []string
+}
+
+// schedCall performs one scheduling call (Once / Loop / valid Cron) inside a handler; bookkeeping is done by the driver
+func (r *srun) schedCall(ctx vivid.ActorContext, o sop) (*call, error) {
+	s := ctx.Scheduler()
+	opt := vivid.WithSchedulerReference(o.ref)
+	if o.ref == "" { // WithSchedulerReference ignores "", WithScheduleOptions does not
+		opt = vivid.WithScheduleOptions(vivid.ScheduleOptions{Location: time.Local, Reference: ""})
+	}
+	recv := r.refs[o.recv]
+	msg := fire{o.payload}
+	c := &call{op: o}
+	var err error
+	st := time.Now()
+	switch o.kind {
+	case kOnce:
+		err = s.Once(recv, time.Duration(o.d)*time.Millisecond, msg, opt)
+	case kLoop:
+		err = s.Loop(recv, time.Duration(o.d)*time.Millisecond, msg, opt)
+	case kCron:
+		expr := o.cron
+		if expr == "" {
+			expr = validCron
+		}
+		err = s.Cron(recv, expr, msg, opt)
+	}
+	c.start, c.end = st, time.Now()
+	return c, err
+}
+
+func (a *sactor) runHooks(ctx vivid.ActorContext, point int) {
+	if a.will == nil {
+		return
+	}
+	for _, o := range a.will[point] {
+		h := hookRes{o: o}
+		switch o.kind {
+		case kOnce, kLoop, kCron:
+			h.c, h.err = a.r.schedCall(ctx, o)
+		case kCancel:
+			h.err = ctx.Scheduler().Cancel(o.ref)
+		case kExists:
+			h.b = ctx.Scheduler().Exists(o.ref)
+		}
+		h.at = time.Now()
+		a.hookRes[point] = append(a.hookRes[point], h)
+	}
+}
+
+// the child of a scripted actor: it only delays its own termination when told to
+type schild struct{ parent *sactor }
+
+func (c *schild) OnReceive(ctx vivid.ActorContext) {
+	if _, ok := ctx.Message().(*vivid.OnKill); ok {
+		if g := c.parent.childGate.Load(); g != nil {
+			select {
+			case <-*g:
+			case <-time.After(opTimeout):
+			}
+		}
+	}
 }
 
 func (a *sactor) OnReceive(ctx vivid.ActorContext) {
 	switch m := ctx.Message().(type) {
 	case *vivid.OnLaunch:
 		a.ctx = ctx
+		if a.r.sc.hasChild(a.idx) {
+			_, _ = ctx.ActorOf(&schild{parent: a}, vivid.WithActorName("k"))
+		}
 		select {
 		case a.launches <- struct{}{}:
 		default:
 		}
+	case *vivid.OnKill:
+		a.runHooks(ctx, hOnKill)
+		select {
+		case a.onKillDone <- struct{}{}:
+		default:
+		}
 	case *vivid.OnKilled:
 		if m.Ref != nil && m.Ref.Equals(ctx.Ref()) {
+			a.runHooks(ctx, hOwnKilled)
 			select {
 			case a.killed <- struct{}{}:
 			default:
 			}
+		} else {
+			a.runHooks(ctx, hChildKilled)
 		}
 	case do:
 		m.f(ctx)
@@ -348,31 +591,123 @@ func errCode(err error) uint64 {
 	return 99
 }
 
-func (r *srun) dump() lib.T {
-	jks := make([]lib.T, len(r.sc.actors))
-	for i, name := range r.sc.actors {
-		var refs []string
-		a := r.actors[i]
-		if !r.deathAt[i].IsZero() {
-			refs = actor.XVSchedRefs(a.ctx) // the actor's goroutine is gone
-		} else {
-			r.in(i, func(ctx vivid.ActorContext) { refs = actor.XVSchedRefs(ctx) })
-		}
-		xs := make([]lib.T, len(refs))
-		for j, s := range refs {
-			xs[j] = lib.S(s)
-		}
-		jks[i] = lib.L(lib.S(path(name)), lib.LS(xs))
+// ---- internal observations (accessors locate them by reflection; a build of vivid that does not offer one is still checked
+// with everything else: the component is projected out on both sides, and the report says so) ----
+
+var obs struct {
+	refs  bool // the per-actor record of references (jobKeys or what replaced it)
+	queue bool // the go-quartz queue (quartz's own GetJobKeys through the located scheduler)
+}
+
+func obsMask() uint64 {
+	m := uint64(0)
+	if !obs.refs {
+		m |= 1
 	}
-	return lib.L(lib.LS(jks), keysTerm(quartzKeys(r.asys)))
+	if !obs.queue {
+		m |= 2
+	}
+	return m
+}
+
+// probeObservations: schedule one far-away job and see whether the located record / queue show it
+func probeObservations() {
+	sys := bootstrap.NewActorSystem(vivid.WithActorSystemLogger(log.NewSilentLogger()))
+	if err := sys.Start(); err != nil {
+		return
+	}
+	defer func() {
+		done := make(chan struct{})
+		go func() { _ = sys.Stop(); close(done) }()
+		select {
+		case <-done:
+		case <-time.After(3 * time.Second):
+		}
+	}()
+	type res struct {
+		refs []string
+		ok   bool
+	}
+	got := make(chan res, 1)
+	keys0, okq0 := actor.XVQuartzKeys(sys)
+	_, err := sys.ActorOf(vivid.ActorFN(func(ctx vivid.ActorContext) {
+		if _, ok := ctx.Message().(*vivid.OnLaunch); ok {
+			before, ok1 := actor.XVSchedRefs(ctx)
+			_ = ctx.Scheduler().Once(ctx.Ref(), time.Hour, fire{1}, vivid.WithSchedulerReference("probe"))
+			after, ok2 := actor.XVSchedRefs(ctx)
+			got <- res{after, ok1 && ok2 && len(before) == 0}
+		}
+	}), vivid.WithActorName("obs-probe"))
+	if err != nil {
+		return
+	}
+	select {
+	case x := <-got:
+		obs.refs = x.ok && len(x.refs) == 1 && x.refs[0] == "probe"
+	case <-time.After(opTimeout):
+	}
+	// the located queue is the right one if the scheduling call added exactly one job to it (whatever its key looks like)
+	keys, ok := actor.XVQuartzKeys(sys)
+	obs.queue = okq0 && ok && len(keys) == len(keys0)+1
+	// development switch: run as if a build of vivid offered none (1), no reference record (2), no queue (3)
+	switch os.Getenv("C20_NO_INTERNALS") {
+	case "1":
+		obs.refs, obs.queue = false, false
+	case "2":
+		obs.refs = false
+	case "3":
+		obs.queue = false
+	}
+}
+
+func schedRefs(c vivid.ActorContext) []string {
+	if !obs.refs {
+		return nil
+	}
+	refs, _ := actor.XVSchedRefs(c)
+	return refs
+}
+
+func (r *srun) dump() lib.T {
+	jksT := lib.L()
+	if obs.refs {
+		jks := make([]lib.T, len(r.sc.actors))
+		for i, name := range r.sc.actors {
+			var refs []string
+			a := r.actors[i]
+			if !r.deathAt[i].IsZero() {
+				refs = schedRefs(a.ctx) // the actor's goroutine is gone
+			} else if r.blocked != nil && (r.blocked[i] || r.stopping[i]) {
+				// the actor's goroutine waits in the blocking handler / for its child (it told us so through a channel)
+				refs = schedRefs(a.ctx)
+			} else {
+				r.in(i, func(ctx vivid.ActorContext) { refs = schedRefs(ctx) })
+			}
+			xs := make([]lib.T, len(refs))
+			for j, s := range refs {
+				xs[j] = lib.S(s)
+			}
+			jks[i] = lib.L(lib.S(path(name)), lib.LS(xs))
+		}
+		jksT = lib.LS(jks)
+	}
+	keysT := lib.L()
+	if obs.queue {
+		keysT = keysTerm(quartzKeys(r.sys))
+	}
+	return lib.L(jksT, keysT)
 }
 
 const canaryName = "c20-canary"
 
 // quartzKeys: (group, name) of the queued jobs, without the harness's own canary job
-func quartzKeys(s *actor.System) [][2]string {
+func quartzKeys(s vivid.ActorSystem) [][2]string {
 	var out [][2]string
-	for _, k := range actor.XVQuartzKeys(s) {
+	if !obs.queue {
+		return out
+	}
+	ks, _ := actor.XVQuartzKeys(s)
+	for _, k := range ks {
 		if k[0] != path(canaryName) {
 			out = append(out, k)
 		}
@@ -406,6 +741,65 @@ func (r *srun) markRemoved(owner int, ref string, all bool, at time.Time, by str
 	}
 }
 
+// noteSched: bookkeeping of one scheduling call (made in a closure or in a handler of a stop sequence)
+func (r *srun) noteSched(o sop, c *call, err error) {
+	if c != nil && err == nil { // only a call that returned nil is a scheduled job (and is numbered by the model)
+		c.idx = len(r.calls)
+		r.calls = append(r.calls, c)
+	}
+	if c != nil && err != nil && o.ref != "" && !(o.kind == kOnce && o.d < 0) && !(o.kind == kLoop && o.d <= 0) {
+		// valid arguments: the only legitimate refusal is a job of this actor that is still queued under this reference
+		live := false
+		for _, p := range r.calls {
+			if p.op.actor != o.actor || p.op.ref != o.ref || !p.removedAt.IsZero() {
+				continue
+			}
+			if p.op.kind != kOnce || c.end.Before(p.end.Add(time.Duration(p.op.d)*time.Millisecond+grace)) {
+				live = true
+			}
+		}
+		if !live {
+			r.rejected = append(r.rejected, fmt.Sprintf("%s returned %v although this actor has no job queued under that reference", describe(r.sc, o), err))
+		}
+	}
+	r.results = append(r.results, lib.N(errCode(err)))
+}
+
+// noteHooks: bookkeeping of the scheduler calls the actor's handlers made at one hook point of its stop sequence
+func (r *srun) noteHooks(a *sactor, point int) {
+	for _, h := range a.hookRes[point] {
+		switch h.o.kind {
+		case kOnce, kLoop, kCron:
+			r.noteSched(h.o, h.c, h.err)
+		case kCancel:
+			code := errCode(h.err)
+			known := false
+			for _, c := range r.calls {
+				if c.op.actor == h.o.actor && c.op.ref == h.o.ref {
+					known = true
+				}
+			}
+			if !known && code != 1 {
+				r.unkCancel = append(r.unkCancel, fmt.Sprintf("Cancel(%q) on %s, a reference this actor never scheduled, returned %v", h.o.ref, path(r.sc.actors[h.o.actor]), h.err))
+			}
+			if code == 0 || code == 3 {
+				r.markRemoved(h.o.actor, h.o.ref, false, h.at, fmt.Sprintf("Cancel(%q) in a handler of the stop sequence at %d ms", h.o.ref, h.o.t))
+			}
+			r.results = append(r.results, lib.N(code))
+		case kExists:
+			r.results = append(r.results, lib.L(lib.Bool(h.b)))
+		}
+	}
+	a.hookRes[point] = nil
+}
+
+func drain(ch chan struct{}) {
+	select {
+	case <-ch:
+	default:
+	}
+}
+
 func (r *srun) exec(o sop) {
 	want := r.t0.Add(time.Duration(o.t) * time.Millisecond)
 	if d := time.Until(want); d > 0 {
@@ -416,67 +810,35 @@ func (r *srun) exec(o sop) {
 	case kOnce, kLoop, kCron:
 		var err error
 		var c *call
-		if o.kind != kCron || o.valid {
-			c = &call{idx: len(r.calls), op: o}
-		}
-		recv := r.refs[o.recv]
 		ok := r.in(o.actor, func(ctx vivid.ActorContext) {
+			if o.kind != kCron || o.valid {
+				c, err = r.schedCall(ctx, o)
+				return
+			}
 			s := ctx.Scheduler()
-			opt := vivid.WithSchedulerReference(o.ref)
-			if o.ref == "" { // WithSchedulerReference ignores "", WithScheduleOptions does not
-				opt = vivid.WithScheduleOptions(vivid.ScheduleOptions{Location: time.Local, Reference: ""})
+			before := s.Exists(o.ref)
+			keysBefore := quartzKeys(r.sys)
+			expr := o.cron
+			if expr == "" {
+				expr = []string{"bad cron", "61 * * * * ?", "* * * *", "0 0 0 32 1 ? 2099"}[int(o.payload)%4]
 			}
-			msg := fire{o.payload}
-			st := time.Now()
-			switch o.kind {
-			case kOnce:
-				err = s.Once(recv, time.Duration(o.d)*time.Millisecond, msg, opt)
-			case kLoop:
-				err = s.Loop(recv, time.Duration(o.d)*time.Millisecond, msg, opt)
-			case kCron:
-				if o.valid {
-					err = s.Cron(recv, validCron, msg, opt)
-				} else {
-					before := s.Exists(o.ref)
-					keysBefore := quartzKeys(r.asys)
-					err = s.Cron(recv, []string{"bad cron", "61 * * * * ?", "* * * *", "0 0 0 32 1 ? 2099"}[int(o.payload)%4], msg, opt)
-					if err == nil {
-						r.cronBad = append(r.cronBad, fmt.Sprintf("Cron with an invalid expression returned nil (actor %s reference %q)", ctx.Ref().GetPath(), o.ref))
-					}
-					if !before && s.Exists(o.ref) {
-						r.cronBad = append(r.cronBad, fmt.Sprintf("after the rejected Cron call Exists(%q) is true on %s", o.ref, ctx.Ref().GetPath()))
-					}
-					if !hasKey(keysBefore, ctx.Ref().GetPath(), o.ref) && hasKey(quartzKeys(r.asys), ctx.Ref().GetPath(), o.ref) {
-						r.cronBad = append(r.cronBad, fmt.Sprintf("after the rejected Cron call the quartz queue holds (%q, %q)", ctx.Ref().GetPath(), o.ref))
-					}
-				}
+			err = s.Cron(r.refs[o.recv], expr, fire{o.payload}, vivid.WithSchedulerReference(o.ref))
+			if err == nil {
+				r.cronBad = append(r.cronBad, fmt.Sprintf("Cron with the invalid expression %q returned nil (actor %s reference %q)", expr, ctx.Ref().GetPath(), o.ref))
+			} else if !errors.Is(err, vivid.ErrorCronParse) {
+				r.cronBad = append(r.cronBad, fmt.Sprintf("Cron with the invalid expression %q returned %v, which is not vivid's cron parse error (actor %s reference %q)", expr, err, ctx.Ref().GetPath(), o.ref))
 			}
-			if c != nil {
-				c.start, c.end = st, time.Now()
+			if !before && s.Exists(o.ref) {
+				r.cronBad = append(r.cronBad, fmt.Sprintf("after the rejected Cron call Exists(%q) is true on %s", o.ref, ctx.Ref().GetPath()))
+			}
+			if !hasKey(keysBefore, ctx.Ref().GetPath(), o.ref) && hasKey(quartzKeys(r.sys), ctx.Ref().GetPath(), o.ref) {
+				r.cronBad = append(r.cronBad, fmt.Sprintf("after the rejected Cron call the quartz queue holds (%q, %q)", ctx.Ref().GetPath(), o.ref))
 			}
 		})
 		if !ok {
 			return
 		}
-		if c != nil && err == nil { // only a call that returned nil is a scheduled job (and is numbered by the model)
-			r.calls = append(r.calls, c)
-		}
-		if c != nil && err != nil && o.ref != "" && !(o.kind == kOnce && o.d < 0) && !(o.kind == kLoop && o.d <= 0) {
-			// valid arguments: the only legitimate refusal is a job of this actor that is still queued under this reference
-			live := false
-			for _, p := range r.calls {
-				if p.op.actor != o.actor || p.op.ref != o.ref || !p.removedAt.IsZero() {
-					continue
-				}
-				if p.op.kind != kOnce || time.Now().Before(p.end.Add(time.Duration(p.op.d)*time.Millisecond+grace)) {
-					live = true
-				}
-			}
-			if !live {
-				r.rejected = append(r.rejected, fmt.Sprintf("%s returned %v although this actor has no job queued under that reference", describe(r.sc, o), err))
-			}
-		}
-		r.results = append(r.results, lib.N(errCode(err)))
+		r.noteSched(o, c, err)
 	case kCancel:
 		var err error
 		known := false
@@ -509,24 +871,68 @@ func (r *srun) exec(o sop) {
 		}
 		r.results = append(r.results, lib.L(lib.Bool(b)))
 	case kKill:
+		a := r.actors[o.actor]
+		drain(a.killed) // a restart leaves a token behind
+		drain(a.onKillDone)
+		a.will = o.will
+		if o.slow > 0 {
+			g := make(chan struct{})
+			a.childGate.Store(&g)
+		}
 		r.sys.Kill(r.refs[o.actor], false, "c20")
+		if o.slow > 0 {
+			// the stop sequence has begun; it ends at the kKillEnd op, when the child has ended
+			select {
+			case <-a.onKillDone:
+			case <-time.After(opTimeout):
+				r.stuck = fmt.Sprintf("actor %s did not run its OnKill handler within %v after Kill", path(r.sc.actors[o.actor]), opTimeout)
+				return
+			}
+			r.stopping[o.actor] = true
+			r.results = append(r.results, lib.N(4)) // the marker of the beginning
+			r.noteHooks(a, hOnKill)
+			break
+		}
 		select {
-		case <-r.actors[o.actor].killed:
+		case <-a.killed:
 		case <-time.After(opTimeout):
 			r.stuck = fmt.Sprintf("actor %s did not terminate within %v after Kill", path(r.sc.actors[o.actor]), opTimeout)
 			return
 		}
-		time.Sleep(10 * time.Millisecond) // cleanupScheduler runs right after the OnKilled behaviour, in the same handler
+		time.Sleep(10 * time.Millisecond)       // cleanupScheduler runs right after the OnKilled behaviour, in the same handler
+		r.results = append(r.results, lib.N(4)) // the marker of the beginning
+		r.noteHooks(a, hOnKill)
+		r.noteHooks(a, hChildKilled)
+		r.noteHooks(a, hOwnKilled)
+		a.will = nil
 		now := time.Now()
 		r.deathAt[o.actor] = now
 		r.markRemoved(o.actor, "", true, now, fmt.Sprintf("termination at %d ms", o.t))
 		r.results = append(r.results, lib.N(4))
+	case kKillEnd:
+		a := r.actors[o.actor]
+		if g := a.childGate.Swap(nil); g != nil {
+			close(*g) // the child ends now
+		}
+		select {
+		case <-a.killed:
+		case <-time.After(opTimeout):
+			r.stuck = fmt.Sprintf("actor %s did not terminate within %v after its child should have ended", path(r.sc.actors[o.actor]), opTimeout)
+			return
+		}
+		time.Sleep(10 * time.Millisecond)
+		r.stopping[o.actor] = false
+		r.noteHooks(a, hChildKilled)
+		r.noteHooks(a, hOwnKilled)
+		a.will = nil
+		now := time.Now()
+		r.deathAt[o.actor] = now
+		r.markRemoved(o.actor, "", true, now, fmt.Sprintf("termination at %d ms (stop sequence begun %d ms earlier)", o.t, o.slow))
+		r.results = append(r.results, lib.N(4))
 	case kRestart:
 		a := r.actors[o.actor]
-		select {
-		case <-a.launches:
-		default:
-		}
+		drain(a.launches)
+		a.will = o.will
 		r.sys.Tell(r.refs[o.actor], boom{})
 		select {
 		case <-a.launches:
@@ -535,13 +941,123 @@ func (r *srun) exec(o sop) {
 			return
 		}
 		time.Sleep(5 * time.Millisecond)
+		r.noteHooks(a, hOnKill)
+		r.noteHooks(a, hChildKilled)
+		r.noteHooks(a, hOwnKilled)
+		a.will = nil
 		r.markRemoved(o.actor, "", true, time.Now(), fmt.Sprintf("restart at %d ms", o.t))
 		r.results = append(r.results, lib.N(4))
 	case kDump:
 		r.results = append(r.results, r.dump())
+	case kBlock:
+		ch := make(chan blockCmd, 1)
+		entered := make(chan struct{})
+		r.blockCh[o.actor] = ch
+		r.sys.Tell(r.refs[o.actor], do{f: func(ctx vivid.ActorContext) {
+			close(entered)
+			cmd := <-ch
+			var br blockRes
+			switch cmd.inner {
+			case kCancel:
+				br.code = errCode(ctx.Scheduler().Cancel(cmd.ref))
+			case kClear:
+				ctx.Scheduler().Clear()
+				br.code = 4
+			case kExists:
+				br.b = ctx.Scheduler().Exists(cmd.ref)
+			}
+			br.at = time.Now()
+			cmd.res <- br
+			if cmd.inner == kRestart {
+				panic("c20 scripted failure at the end of a long handler")
+			}
+		}, done: make(chan struct{})})
+		select {
+		case <-entered:
+		case <-time.After(opTimeout):
+			r.stuck = fmt.Sprintf("actor %s did not start its blocking handler within %v", path(r.sc.actors[o.actor]), opTimeout)
+			return
+		}
+		r.blocked[o.actor] = true
+		r.results = append(r.results, lib.N(4))
+	case kUnblock:
+		ch := r.blockCh[o.actor]
+		a := r.actors[o.actor]
+		cmd := blockCmd{inner: o.inner, ref: o.ref, res: make(chan blockRes, 1)}
+		if o.inner == kKill {
+			r.sys.Kill(r.refs[o.actor], false, "c20") // enqueued while the handler still runs; handled right after it
+			cmd.inner = -1
+		}
+		if o.inner == kRestart {
+			select {
+			case <-a.launches:
+			default:
+			}
+		}
+		ch <- cmd
+		var br blockRes
+		select {
+		case br = <-cmd.res:
+		case <-time.After(opTimeout):
+			r.stuck = fmt.Sprintf("the blocking handler of %s did not end within %v", path(r.sc.actors[o.actor]), opTimeout)
+			return
+		}
+		r.blocked[o.actor] = false
+		switch o.inner {
+		case kCancel:
+			known := false
+			for _, c := range r.calls {
+				if c.op.actor == o.actor && c.op.ref == o.ref {
+					known = true
+				}
+			}
+			if !known && br.code != 1 {
+				r.unkCancel = append(r.unkCancel, fmt.Sprintf("Cancel(%q) on %s, a reference this actor never scheduled, returned code %d", o.ref, path(r.sc.actors[o.actor]), br.code))
+			}
+			if br.code == 0 || br.code == 3 {
+				r.markRemoved(o.actor, o.ref, false, br.at, fmt.Sprintf("Cancel(%q) at %d ms (at the end of a long handler)", o.ref, o.t))
+			}
+			r.results = append(r.results, lib.N(br.code))
+		case kClear:
+			r.markRemoved(o.actor, "", true, br.at, fmt.Sprintf("Clear at %d ms (at the end of a long handler)", o.t))
+			r.results = append(r.results, lib.N(4))
+		case kExists:
+			r.results = append(r.results, lib.L(lib.Bool(br.b)))
+		case kKill:
+			select {
+			case <-a.killed:
+			case <-time.After(opTimeout):
+				r.stuck = fmt.Sprintf("actor %s did not terminate within %v after Kill", path(r.sc.actors[o.actor]), opTimeout)
+				return
+			}
+			time.Sleep(10 * time.Millisecond)
+			now := time.Now()
+			r.deathAt[o.actor] = now
+			r.markRemoved(o.actor, "", true, now, fmt.Sprintf("termination at %d ms (killed during a long handler)", o.t))
+			r.results = append(r.results, lib.N(4))
+		case kRestart:
+			select {
+			case <-a.launches:
+			case <-time.After(opTimeout):
+				r.stuck = fmt.Sprintf("actor %s was not restarted within %v after its long handler panicked", path(r.sc.actors[o.actor]), opTimeout)
+				return
+			}
+			time.Sleep(5 * time.Millisecond)
+			drain(a.killed)
+			r.markRemoved(o.actor, "", true, time.Now(), fmt.Sprintf("restart at %d ms (a long handler panicked)", o.t))
+			r.results = append(r.results, lib.N(4))
+		default:
+			r.results = append(r.results, lib.N(4))
+		}
+	case kHold:
+		r.gates.hold(path(r.sc.actors[o.actor]), o.ref)
+		r.results = append(r.results, lib.N(4))
+	case kRelease:
+		r.gates.release(path(r.sc.actors[o.actor]), o.ref)
+		r.results = append(r.results, lib.N(4))
 	}
 	tol := lateTol
-	if o.kind == kKill || o.kind == kRestart {
+	if o.kind == kKill || o.kind == kKillEnd || o.kind == kRestart || (o.kind == kUnblock && (o.inner == kKill || o.inner == kRestart)) {
 		tol += 15 * time.Millisecond // these wait for the lifecycle to complete and then sleep 5-10 ms
 	}
 	if late := time.Since(want); late > tol && r.disturbed == "" {
@@ -549,47 +1065,111 @@ func (r *srun) exec(o sop) {
 	}
 }
 
-// model input: the ops with the clock steps between them
-func (sc scenario) term() (lib.T, int) {
-	var xs []lib.T
+// model input: (15 slot) then the ops with the clock steps between them; a clock step never crosses a slot boundary, so
+// that the model's arrival times have the resolution of the slot grid. fromImpl[i]: the i-th model op takes its result
+// from the harness (in order); the others (clock steps, markers) answer 4.
+func (sc scenario) term() (lib.T, []bool, int) {
+	xs := []lib.T{lib.L(lib.N(15), lib.N(slotMs), lib.N(obsMask()))}
+	var from []bool
 	cur := 0
 	ticks := 0
+	emit := func(t lib.T, impl bool) {
+		xs = append(xs, t)
+		from = append(from, impl)
+	}
 	tick := func(to int) {
-		if to > cur {
-			xs = append(xs, lib.L(lib.N(8), lib.Z(int64(to-cur))))
-			cur = to
+		for cur < to {
+			next := (cur/slotMs + 1) * slotMs
+			if next > to {
+				next = to
+			}
+			emit(lib.L(lib.N(8), lib.Z(int64(next-cur))), false)
+			cur = next
 			ticks++
 		}
 	}
+	var opTerm func(o sop) lib.T
+	opTerm = func(o sop) lib.T {
+		a := lib.S(path(sc.actors[o.actor]))
+		switch o.kind {
+		case kOnce:
+			return lib.L(lib.N(0), a, lib.S(path(sc.actors[o.recv])), lib.S(o.ref), lib.Z(int64(o.d)), lib.N(o.payload))
+		case kLoop:
+			return lib.L(lib.N(1), a, lib.S(path(sc.actors[o.recv])), lib.S(o.ref), lib.Z(int64(o.d)), lib.N(o.payload))
+		case kCron:
+			return lib.L(lib.N(2), a, lib.S(path(sc.actors[o.recv])), lib.S(o.ref), lib.Bool(o.valid), lib.N(o.payload))
+		case kCancel:
+			return lib.L(lib.N(3), a, lib.S(o.ref))
+		case kClear:
+			return lib.L(lib.N(4), a)
+		case kExists:
+			return lib.L(lib.N(5), a, lib.S(o.ref))
+		}
+		panic("opTerm")
+	}
+	hooks := func(o sop, points ...int) {
+		if o.will == nil {
+			return
+		}
+		for _, p := range points {
+			for _, h := range o.will[p] {
+				emit(opTerm(h), true)
+			}
+		}
+	}
+	wills := map[int]sop{} // the kKill op whose stop sequence is in progress, per actor
 	for _, o := range sc.ops {
 		tick(o.t)
 		a := lib.S(path(sc.actors[o.actor]))
 		switch o.kind {
-		case kOnce:
-			xs = append(xs, lib.L(lib.N(0), a, lib.S(path(sc.actors[o.recv])), lib.S(o.ref), lib.Z(int64(o.d)), lib.N(o.payload)))
-		case kLoop:
-			xs = append(xs, lib.L(lib.N(1), a, lib.S(path(sc.actors[o.recv])), lib.S(o.ref), lib.Z(int64(o.d)), lib.N(o.payload)))
-		case kCron:
-			xs = append(xs, lib.L(lib.N(2), a, lib.S(path(sc.actors[o.recv])), lib.S(o.ref), lib.Bool(o.valid), lib.N(o.payload)))
-		case kCancel:
-			xs = append(xs, lib.L(lib.N(3), a, lib.S(o.ref)))
-		case kClear:
-			xs = append(xs, lib.L(lib.N(4), a))
-		case kExists:
-			xs = append(xs, lib.L(lib.N(5), a, lib.S(o.ref)))
+		case kOnce, kLoop, kCron, kCancel, kClear, kExists:
+			emit(opTerm(o), true)
 		case kKill:
-			xs = append(xs, lib.L(lib.N(6), a))
+			emit(lib.L(lib.N(16), a), true)
+			if o.slow > 0 {
+				hooks(o, hOnKill)
+				wills[o.actor] = o
+			} else {
+				hooks(o, hOnKill, hChildKilled, hOwnKilled)
+				emit(lib.L(lib.N(6), a), true)
+			}
+		case kKillEnd:
+			hooks(wills[o.actor], hChildKilled, hOwnKilled)
+			emit(lib.L(lib.N(6), a), true)
 		case kRestart:
-			xs = append(xs, lib.L(lib.N(7), a))
+			hooks(o, hOnKill, hChildKilled, hOwnKilled)
+			emit(lib.L(lib.N(7), a), true)
 		case kDump:
 			as := make([]lib.T, len(sc.actors))
 			for i, n := range sc.actors {
 				as[i] = lib.S(path(n))
 			}
-			xs = append(xs, lib.L(lib.N(10), lib.LS(as)))
+			emit(lib.L(lib.N(10), lib.LS(as)), true)
+		case kBlock:
+			emit(lib.L(lib.N(11), a), true)
+		case kUnblock:
+			switch o.inner {
+			case kCancel, kClear, kExists:
+				in := o
+				in.kind = o.inner
+				emit(opTerm(in), true)
+			case kKill:
+				emit(lib.L(lib.N(16), a), false)
+				emit(lib.L(lib.N(6), a), true)
+			case kRestart:
+				emit(lib.L(lib.N(7), a), true)
+			default:
+				emit(lib.L(lib.N(12), a), true)
+				continue
+			}
+			emit(lib.L(lib.N(12), a), false)
+		case kHold:
+			emit(lib.L(lib.N(13), a, lib.S(o.ref)), true)
+		case kRelease:
+			emit(lib.L(lib.N(14), a, lib.S(o.ref)), true)
 		}
 	}
-	return lib.LS(xs), ticks
+	return lib.LS(xs), from, ticks
 }
 
 type hit struct{ name, detail string }
@@ -606,21 +1186,36 @@ type outcome struct {
 }
 
 func runScenario(sc scenario) (*srun, bool) {
-	r := &srun{sc: sc, deathAt: make([]time.Time, len(sc.actors))}
+	n := len(sc.actors)
+	r := &srun{sc: sc, deathAt: make([]time.Time, n), blockCh: make([]chan blockCmd, n), blocked: make([]bool, n), stopping: make([]bool, n), gates: newGateSet()}
 	dm := vivid.SupervisionStrategyDecisionMakerFN(func(ctx vivid.SupervisionContext) (vivid.SupervisionDecision, string) {
 		return vivid.SupervisionDecisionRestart, "c20"
 	})
-	sys := bootstrap.NewActorSystem(vivid.WithActorSystemLogger(log.NewSilentLogger()), vivid.WithActorSystemSupervisionStrategy(vivid.OneForOneStrategy(dm)))
+	silent := log.NewSilentLogger()
+	sys := bootstrap.NewActorSystem(vivid.WithActorSystemLogger(silent), vivid.WithActorSystemSupervisionStrategy(vivid.OneForOneStrategy(dm)))
 	if err := sys.Start(); err != nil {
 		r.stuck = "system start: " + err.Error()
 		return r, false
 	}
 	r.sys = sys
-	r.asys = sys.(*actor.System)
 	defer func() {
 		r.mu.Lock()
 		r.closed = true
 		r.mu.Unlock()
+		r.gates.releaseAll()
+		for i, ch := range r.blockCh {
+			if ch != nil && r.blocked[i] {
+				select {
+				case ch <- blockCmd{inner: -1, res: make(chan blockRes, 1)}:
+				default:
+				}
+			}
+		}
+		for _, a := range r.actors {
+			if g := a.childGate.Swap(nil); g != nil {
+				close(*g)
+			}
+		}
 		done := make(chan struct{})
 		go func() { _ = sys.Stop(); close(done) }()
 		select {
@@ -633,8 +1228,9 @@ func runScenario(sc scenario) (*srun, bool) {
 		return r, false
 	}
 	for i, name := range sc.actors {
-		a := &sactor{r: r, idx: i, launches: make(chan struct{}, 1), killed: make(chan struct{}, 1)}
-		ref, err := sys.ActorOf(a, vivid.WithActorName(name))
+		a := &sactor{r: r, idx: i, launches: make(chan struct{}, 1), killed: make(chan struct{}, 1), onKillDone: make(chan struct{}, 1)}
+		// the actor's own logger: the hold control of its Tell goroutines (everything else is discarded)
+		ref, err := sys.ActorOf(a, vivid.WithActorName(name), vivid.WithActorLogger(&gateLogger{Logger: silent, g: r.gates, owner: path(name)}))
 		if err != nil {
 			r.stuck = fmt.Sprintf("spawn %q: %v", name, err)
 			return r, false
@@ -704,6 +1300,20 @@ func (r *srun) classify(c *call) string {
 	return "other"
 }
 
+// flighty: the harness stretched the way of this call's messages (its receiver sat in a long handler, or its Tell goroutines
+// were suspended): an arrival long after a removal is then no evidence of a firing after the removal
+func (r *srun) flighty(c *call) bool {
+	for _, o := range r.sc.ops {
+		if o.kind == kBlock && o.actor == c.op.recv {
+			return true
+		}
+		if o.kind == kHold && o.actor == c.op.actor && o.ref == c.op.ref {
+			return true
+		}
+	}
+	return false
+}
+
 func (r *srun) judge(observedAt time.Time) []hit {
 	var hits []hit
 	add := func(n, d string) { hits = append(hits, hit{n, d}) }
@@ -758,7 +1368,7 @@ func (r *srun) judge(observedAt time.Time) []hit {
 			if c.op.kind == kCron {
 				add("c20-cron-fired", fmt.Sprintf("call #%d: the cron job for year 2099 fired", c.idx))
 			}
-			if !c.removedAt.IsZero() && d.at.After(c.removedAt.Add(grace)) {
+			if !c.removedAt.IsZero() && d.at.After(c.removedAt.Add(grace)) && !r.flighty(c) {
 				what := "delivered"
 				if d.dead {
 					what = "dead-lettered"
@@ -775,6 +1385,30 @@ func (r *srun) judge(observedAt time.Time) []hit {
 		}
 		if c.op.kind == kOnce && len(ds) > 1 {
 			add("c20-once-twice", fmt.Sprintf("call #%d (%s) was told %d times", c.idx, describe(r.sc, c.op), len(ds)))
+		}
+		// exact, whatever the delays of goroutines and mailboxes: a job removed by its owner at R fires at no instant after R.
+		// The instants are call + d (Once), call + k*i (Loop), none before (call start) + ...; so at most as many messages
+		// can ever arrive as there are instants up to R (5 ms for the two clocks).
+		if !c.removedAt.IsZero() {
+			room := c.removedAt.Add(5 * ms).Sub(c.start)
+			most := 0
+			switch c.op.kind {
+			case kOnce:
+				if room >= time.Duration(c.op.d)*ms {
+					most = 1
+				}
+			case kLoop:
+				if c.op.d > 0 && room > 0 {
+					most = int(room / (time.Duration(c.op.d) * ms))
+				}
+			}
+			if len(ds) > most {
+				name := "c20-after-removal"
+				if strings.HasPrefix(c.removedBy, "termination") {
+					name = "c20-after-death"
+				}
+				add(name, fmt.Sprintf("call #%d (%s) was removed by %s, %v after the call began: at most %d of its firing instants lie before that removal, but %d messages arrived (delivered or dead-lettered): a firing instant after the removal fired", c.idx, describe(r.sc, c.op), c.removedBy, c.removedAt.Sub(c.start), most, len(ds)))
+			}
 		}
 	}
 	// lost jobs: not removed by the owner, owner alive, observed long enough - and nothing (or too little) was told
@@ -818,9 +1452,13 @@ func describe(sc scenario, o sop) string {
 }
 
 func runOutcome(sc scenario) *outcome {
-	in, _ := sc.term()
+	in, from, _ := sc.term()
 	oc := &outcome{sc: sc, in: in}
-	for attempt := 1; attempt <= maxRetries; attempt++ {
+	tries := maxRetries
+	if sc.kind != "random" {
+		tries = 2 * maxRetries // the directed scenarios are few and each is the only one of its kind
+	}
+	for attempt := 1; attempt <= tries; attempt++ {
 		oc.attempts = attempt
 		r, ok := runScenario(sc)
 		if !ok {
@@ -831,41 +1469,60 @@ func runOutcome(sc scenario) *outcome {
 			oc.disturbed = append(oc.disturbed, r.disturbed)
 			continue
 		}
-		// results: the model answers every op, clock steps included (RUnit = 4)
+		// results: the model answers every op, clock steps and markers included (RUnit = 4)
 		var res []lib.T
-		cur, ri := 0, 0
-		for _, o := range sc.ops {
-			if o.t > cur {
+		ri := 0
+		for _, impl := range from {
+			if !impl {
 				res = append(res, lib.N(4))
-				cur = o.t
+				continue
+			}
+			if ri >= len(r.results) {
+				oc.hits = []hit{{"c20-op-timeout", fmt.Sprintf("harness bookkeeping: %d results for %d ops", len(r.results), len(from))}}
+				return oc
 			}
 			res = append(res, r.results[ri])
 			ri++
 		}
-		per := map[uint64][2]uint64{}
+		// per scheduling call: deliveries, dead letters, and the slot of every arrival (oldest first)
+		type arr struct {
+			slot int
+			dead bool
+		}
+		per := map[uint64][]arr{}
 		for _, d := range r.delivs {
-			x := per[d.p]
-			if d.dead {
-				x[1]++
-			} else {
-				x[0]++
-			}
-			per[d.p] = x
+			per[d.p] = append(per[d.p], arr{int(d.at.Sub(r.t0) / (slotMs * time.Millisecond)), d.dead})
 		}
 		counts := make([]lib.T, len(r.calls))
 		fired := false
 		for i, c := range r.calls {
-			x := per[c.op.payload]
-			counts[i] = lib.L(lib.N(x[0]), lib.N(x[1]))
-			fired = fired || x[0]+x[1] > 0
+			as := per[c.op.payload]
+			sort.Slice(as, func(i, j int) bool {
+				if as[i].slot != as[j].slot {
+					return as[i].slot < as[j].slot
+				}
+				return !as[i].dead && as[j].dead
+			})
+			var nd, dd uint64
+			ts := make([]lib.T, len(as))
+			for j, x := range as {
+				if x.dead {
+					dd++
+				} else {
+					nd++
+				}
+				ts[j] = lib.L(lib.NI(x.slot), lib.Bool(x.dead))
+			}
+			counts[i] = lib.L(lib.N(nd), lib.N(dd), lib.LS(ts))
+			fired = fired || len(as) > 0
 		}
 		removal := false
 		for _, o := range sc.ops {
-			if o.kind == kCancel || o.kind == kClear || o.kind == kKill || o.kind == kRestart {
+			if o.kind == kCancel || o.kind == kClear || o.kind == kKill || o.kind == kRestart || o.kind == kUnblock {
 				removal = true
 			}
 		}
-		oc.out = lib.L(lib.LS(res), lib.LS(counts))
+		oc.out = lib.L(lib.LS(res), lib.LS(counts), lib.N(0))
 		oc.nontriv = fired && removal
 		oc.hits = r.judge(r.t0.Add(time.Duration(sc.end) * time.Millisecond))
 		return oc
@@ -905,14 +1562,181 @@ func (b *builder) badCron(t int, owner, ref string) *builder {
 	b.next++
 	return b
 }
+
+// cronExpr: an expression from the corpus; valid is what go-quartz's own validator says about it (the model's oracle bit)
+func (b *builder) cronExpr(t int, owner, recv, ref, expr string) *builder {
+	valid := quartz.ValidateCronExpression(expr) == nil
+	b.sc.ops = append(b.sc.ops, sop{t: b.ms(t), kind: kCron, actor: b.idx(owner), recv: b.idx(recv), ref: ref, valid: valid, cron: expr, payload: b.next})
+	b.next++
+	return b
+}
+
+// cronCorpus: year-2099 expressions (never due) and their mutations: dropped / duplicated fields, values out of range, both day
+// fields set, broken lists / ranges / steps, stray characters, extra white space. A mutation that is still valid but no longer
+// pinned to 2099 is not used (it could fire during the scenario).
+func cronMutant(r *lib.Rand) string {
+	bases := []string{"0 0 0 1 1 ? 2099", "0 15 10 ? * MON-FRI 2099", "0 0/5 14 * * ? 2099", "0 0 12 1/5 * ? 2099", "30 10,20 1-3 ? JAN,JUN 1#2 2099", "0 0 0 L * ? 2099"}
+	for {
+		toks := strings.Split(bases[r.Intn(len(bases))], " ")
+		switch r.Intn(8) {
+		case 0:
+			i := r.Intn(len(toks))
+			toks = append(toks[:i], toks[i+1:]...)
+		case 1:
+			i := r.Intn(len(toks))
+			toks = append(toks[:i+1], toks[i:]...)
+		case 2, 3:
+			toks[r.Intn(len(toks))] = []string{"60", "61", "24", "32", "13", "8", "-1", "a", "*/0", "1-", "/5", "1,,2", "L", "?", "*", "5-1", "1/", "2100", "1969", "JANU", "SUN-SAT", "1.5", "0x1", " "}[r.Intn(24)]
+		case 4:
+			toks[3], toks[5] = "1", "MON"
+		case 5:
+			i := r.Intn(len(toks))
+			toks[i] = toks[i] + []string{",", "-", "/", "#", "x", "\t"}[r.Intn(6)]
+		case 6:
+			i := r.Intn(len(toks))
+			toks[i] = []string{" ", "\t", "  "}[r.Intn(3)] + toks[i]
+		case 7:
+			// unchanged
+		}
+		expr := strings.Join(toks, " ")
+		if quartz.ValidateCronExpression(expr) == nil {
+			f := strings.Fields(expr)
+			if len(f) != 7 || f[6] != "2099" {
+				continue
+			}
+		}
+		return expr
+	}
+}
+
 func (b *builder) op(t, kind int, owner, ref string) *builder {
 	b.sc.ops = append(b.sc.ops, sop{t: b.ms(t), kind: kind, actor: b.idx(owner), ref: ref})
 	return b
 }
+func (b *builder) episode(t, kind int, owner, ref string, inner int) *builder {
+	b.sc.ops = append(b.sc.ops, sop{t: b.ms(t), kind: kind, actor: b.idx(owner), ref: ref, inner: inner})
+	return b
+}
+
+// hook: one scheduler call made by a handler of a stop sequence
+func (b *builder) hook(kind int, owner, recv, ref string, d int) sop {
+	o := sop{kind: kind, actor: b.idx(owner), recv: b.idx(recv), ref: ref, d: b.ms(d), valid: true}
+	if kind <= kCron {
+		o.payload = b.next
+		b.next++
+	}
+	return o
+}
+
+// stop: Kill (kKill) or restart (kRestart) of owner whose handlers of the stop sequence make the calls of w; slow > 0
+// (kKill only, the actor must have a child): the child ends only slow units later, the sequence ends at a kKillEnd op there
+func (b *builder) stop(t, kind int, owner string, w [3][]sop, slow int) *builder {
+	for p := range w {
+		for i := range w[p] {
+			w[p][i].t = b.ms(t)
+		}
+	}
+	b.sc.ops = append(b.sc.ops, sop{t: b.ms(t), kind: kind, actor: b.idx(owner), will: &w, slow: b.ms(slow)})
+	return b
+}
+
+func (b *builder) withChild(owner string) *builder {
+	if b.sc.child == nil {
+		b.sc.child = make([]bool, len(b.sc.actors))
+	}
+	b.sc.child[b.idx(owner)] = true
+	return b
+}
+
 func (b *builder) done(end int) scenario {
 	b.sc.ops = append(b.sc.ops, sop{t: b.ms(end), kind: kDump})
 	b.sc.end = b.ms(end)
 	return b.sc
+}
+
+// directedFlight: the firing is not atomic - long handlers, suspended Tell goroutines (holds), and the handlers of a stop
+// sequence that still call the scheduler
+func directedFlight(holds bool) []scenario {
+	var out []scenario
+	// a long handler: two firings queue up behind it, Cancel at its end returns nil, then both are delivered - nothing later
+	out = append(out, newBuilder("flight", "a").
+		sched(0, kLoop, "a", "a", "l", 400).episode(100, kBlock, "a", "", 0).episode(900, kUnblock, "a", "l", kCancel).done(1700))
+	// a long handler, then killed: what queued up (own jobs and another actor's) becomes dead letters; the other actor's job goes on
+	out = append(out, newBuilder("flight", "a", "b").
+		sched(0, kLoop, "a", "a", "l", 400).sched(0, kLoop, "b", "a", "k", 400).
+		episode(100, kBlock, "a", "", 0).episode(900, kUnblock, "a", "", kKill).op(1100, kDump, "a", "").done(1900))
+	// a long handler panics: the supervisor restarts the actor, what queued up is delivered to the NEW incarnation, the jobs are gone
+	out = append(out, newBuilder("flight", "a").
+		sched(0, kOnce, "a", "a", "o", 400).sched(0, kLoop, "a", "a", "l", 400).
+		episode(100, kBlock, "a", "", 0).episode(700, kUnblock, "a", "", kRestart).op(900, kExists, "a", "l").done(1500))
+	// a long handler with Clear / Exists at its end; another actor's job to the busy receiver
+	out = append(out, newBuilder("flight", "a", "b").
+		sched(0, kLoop, "a", "b", "l", 400).sched(0, kOnce, "b", "b", "o", 400).
+		episode(100, kBlock, "b", "", 0).op(500, kCancel, "a", "l").episode(700, kUnblock, "b", "o", kExists).
+		episode(900, kBlock, "a", "", 0).episode(1100, kUnblock, "a", "", kClear).done(1500))
+	if holds {
+		// the goroutine of a Once is suspended after the pop: Exists true, Cancel answers quartz's error - and the message arrives 300 ms later
+		out = append(out, newBuilder("flight", "a").
+			episode(0, kHold, "a", "o", 0).sched(0, kOnce, "a", "a", "o", 400).
+			op(500, kExists, "a", "o").op(500, kCancel, "a", "o").op(500, kDump, "a", "").episode(700, kRelease, "a", "o", 0).done(1100))
+		// two firings of a Loop in flight at once; Cancel returns nil; both arrive afterwards, the later instants never fire
+		out = append(out, newBuilder("flight", "a").
+			episode(0, kHold, "a", "l", 0).sched(0, kLoop, "a", "a", "l", 400).
+			op(900, kCancel, "a", "l").episode(1100, kRelease, "a", "l", 0).done(1900))
+		// in flight when the owner terminates: to the owner itself a dead letter, to another actor delivered (sender: the dead owner)
+		out = append(out, newBuilder("flight", "a", "b").
+			episode(0, kHold, "a", "o", 0).episode(0, kHold, "a", "p", 0).sched(0, kOnce, "a", "a", "o", 400).sched(0, kOnce, "a", "b", "p", 400).
+			op(500, kKill, "a", "").episode(700, kRelease, "a", "o", 0).episode(700, kRelease, "a", "p", 0).done(1100))
+		// in flight across a restart: the message of the old incarnation's job reaches the new incarnation; the reference is free again
+		out = append(out, newBuilder("flight", "a").
+			episode(0, kHold, "a", "o", 0).sched(0, kOnce, "a", "a", "o", 400).op(500, kRestart, "a", "").
+			episode(700, kRelease, "a", "o", 0).sched(800, kOnce, "a", "a", "o", 400).done(1500))
+		// re-use of the reference while the first Once is still in flight: accepted (the queue no longer holds the key), both arrive
+		out = append(out, newBuilder("flight", "a").
+			episode(0, kHold, "a", "o", 0).sched(0, kOnce, "a", "a", "o", 400).sched(600, kOnce, "a", "a", "o", 400).
+			episode(1100, kRelease, "a", "o", 0).done(1500))
+	}
+	// the handlers of a stop sequence still call the scheduler: every call is accepted, every job dies with the incarnation
+	{
+		b := newBuilder("stop", "a", "b").withChild("a")
+		b.sched(0, kLoop, "a", "a", "l", 400)
+		w := [3][]sop{
+			{b.hook(kOnce, "a", "a", "w1", 400), b.hook(kLoop, "a", "b", "w2", 400)},
+			{b.hook(kOnce, "a", "a", "w3", 400)},
+			{b.hook(kLoop, "a", "a", "w4", 400), b.hook(kExists, "a", "a", "w1", 0), b.hook(kOnce, "a", "b", "l", 400)},
+		}
+		out = append(out, b.stop(100, kKill, "a", w, 0).op(100, kDump, "a", "").done(1300))
+	}
+	{
+		b := newBuilder("stop", "a", "b").withChild("a")
+		b.sched(0, kLoop, "a", "a", "l", 400)
+		w := [3][]sop{
+			{b.hook(kOnce, "a", "a", "w1", 400), b.hook(kLoop, "a", "b", "w2", 400)},
+			{b.hook(kOnce, "a", "a", "w3", 400), b.hook(kCancel, "a", "a", "l", 0)},
+			{b.hook(kLoop, "a", "a", "w4", 400), b.hook(kExists, "a", "a", "w1", 0)},
+		}
+		out = append(out, b.stop(100, kRestart, "a", w, 0).op(100, kDump, "a", "").sched(200, kOnce, "a", "a", "w1", 400).done(1500))
+	}
+	{
+		// no child: OnKill handler and own OnKilled handler only
+		b := newBuilder("stop", "a")
+		w := [3][]sop{{b.hook(kOnce, "a", "a", "w1", 400)}, nil, {b.hook(kLoop, "a", "a", "w2", 400)}}
+		out = append(out, b.stop(100, kKill, "a", w, 0).done(1100))
+		b = newBuilder("stop", "a")
+		w = [3][]sop{{b.hook(kLoop, "a", "a", "w1", 400)}, nil, {b.hook(kOnce, "a", "a", "w2", 400)}}
+		out = append(out, b.stop(100, kRestart, "a", w, 0).done(1100))
+	}
+	{
+		// a stop sequence that waits 600 ms for the child: the actor's jobs keep firing meanwhile - into dead letters when they
+		// are addressed to the stopping actor; handlers at both ends schedule; everything dies at the END of the sequence
+		b := newBuilder("stop", "a", "b").withChild("a")
+		b.sched(0, kLoop, "a", "a", "l", 400).sched(0, kLoop, "b", "a", "k", 400).sched(0, kLoop, "a", "b", "m", 400)
+		w := [3][]sop{{b.hook(kOnce, "a", "a", "w", 800)}, {b.hook(kOnce, "a", "b", "y", 400)}, {b.hook(kOnce, "a", "b", "z", 400)}}
+		b.stop(100, kKill, "a", w, 400).op(300, kDump, "a", "")
+		b.sc.ops = append(b.sc.ops, sop{t: b.ms(500), kind: kKillEnd, actor: b.idx("a"), slow: b.ms(400)})
+		out = append(out, b.op(500, kDump, "a", "").done(1500))
+	}
+	return out
 }
 
 func directed() []scenario {
@@ -947,6 +1771,13 @@ func directed() []scenario {
 	// the same reference on two actors without a collision
 	out = append(out, newBuilder("directed", "a", "b").
 		sched(0, kOnce, "a", "a", "r", 400).sched(0, kOnce, "b", "b", "r", 400).sched(0, kLoop, "a", "b", "l", 400).op(900, kCancel, "b", "l").op(900, kCancel, "a", "l").done(1500))
+	// the same reference on two actors, one the receiver of the other's job: the receiver's own job under that reference is
+	// untouched by the arrival and still dies with its Clear / its termination
+	out = append(out, newBuilder("directed", "a", "b").
+		sched(0, kOnce, "b", "b", "r", 800).sched(0, kOnce, "a", "b", "r", 400).op(500, kExists, "b", "r").op(500, kClear, "b", "").op(500, kDump, "a", "").done(1300))
+	out = append(out, newBuilder("directed", "a", "b").
+		sched(0, kLoop, "b", "b", "r", 800).sched(0, kOnce, "b", "b", "s", 800).sched(0, kOnce, "a", "b", "r", 400).sched(0, kOnce, "a", "b", "s", 400).
+		op(500, kKill, "b", "").op(500, kDump, "a", "").done(1900))
 	// negative and zero delay
 	out = append(out, newBuilder("directed", "a").
 		sched(0, kOnce, "a", "a", "n", -1000).sched(0, kOnce, "a", "a", "z", 0).op(300, kExists, "a", "n").op(300, kDump, "a", "").done(700))
@@ -963,6 +1794,16 @@ func directed() []scenario {
 	out = append(out, newBuilder("directed", "a").
 		badCron(0, "a", "c").sched(0, kCron, "a", "a", "v", 0).op(100, kExists, "a", "c").op(100, kExists, "a", "v").op(100, kDump, "a", "").
 		badCron(300, "a", "v").op(300, kCancel, "a", "c").op(300, kCancel, "a", "v").op(300, kCancel, "a", "v").done(500))
+	// Cron corpus: 30 mutated expressions (whatever go-quartz's validator says about each is the model's oracle bit): an invalid one
+	// returns vivid's parse error and changes nothing, a valid one (pinned to the year 2099) is queued and never due
+	{
+		cr := lib.NewRand(20200920)
+		b := newBuilder("directed", "a")
+		for i := 0; i < 30; i++ {
+			b.cronExpr(0, "a", "a", fmt.Sprintf("c%d", i), cronMutant(cr))
+		}
+		out = append(out, b.op(100, kDump, "a", "").op(100, kClear, "a", "").done(300))
+	}
 	// rejected arguments: negative delay, non-positive interval, empty reference, live reference; nothing is scheduled
 	out = append(out, newBuilder("directed", "a").
 		sched(0, kOnce, "a", "a", "n", -1000).sched(0, kLoop, "a", "a", "z", 0).sched(0, kLoop, "a", "a", "m", -1000).sched(0, kOnce, "a", "a", "", 400).
@@ -977,7 +1818,8 @@ func directed() []scenario {
 	return out
 }
 
-func random(r *lib.Rand) scenario {
+// flight (holds allowed) is false when the logger line the hold control needs is absent from the tree under test
+func random(r *lib.Rand, holds bool) scenario {
 	pools := [][]string{{"a"}, {"a", "a:b"}, {"a", "b"}, {"a", "a:b", "b"}, {"x", "y"}, {"a:b", "a"}}
 	b := newBuilder("random", pools[r.Intn(len(pools))]...)
 	refs := []string{"r", "s", "b:c", "c"}
@@ -986,16 +1828,29 @@ func random(r *lib.Rand) scenario {
 	}
 	n := len(b.sc.actors)
 	alive := make([]bool, n)
+	busy := make([]int, n) // the actor sits in a long handler / in a stop sequence until this slot (exclusive)
+	b.sc.child = make([]bool, n)
 	for i := range alive {
 		alive[i] = true
+		b.sc.child[i] = r.Chance(1, 3)
 	}
 	type use struct{ n, lane int }
 	uses := map[string]use{}
 	slots := 12 + r.Intn(10)
-	anyAlive := func() (int, bool) {
+	pending := map[int][]sop{} // ops that end an episode, by slot
+	heldKeys := map[string]bool{}
+	lastEnd := 0
+	later := func(slot int, o sop) {
+		o.t = b.ms(slot * 100)
+		pending[slot] = append(pending[slot], o)
+		if slot > lastEnd {
+			lastEnd = slot
+		}
+	}
+	free := func(slot int) (int, bool) {
 		var xs []int
 		for i, a := range alive {
-			if a {
+			if a && busy[i] <= slot {
 				xs = append(xs, i)
 			}
 		}
@@ -1004,14 +1859,64 @@ func random(r *lib.Rand) scenario {
 		}
 		return xs[r.Intn(len(xs))], true
 	}
-	for slot := 0; slot < slots; slot++ {
+	// what the handlers of a stop sequence do: 1-3 scheduler calls (jobs whose instants lie after the end of the sequence)
+	// (slowDur: the sequence waits that many slots for the child: no instant of a job of the OnKill handler may coincide with its end)
+	will := func(a int, t int, slowDur int) *[3][]sop {
+		var w [3][]sop
+		for k := 1 + r.Intn(3); k > 0; k-- {
+			point := []int{hOnKill, hOnKill, hOwnKilled, hChildKilled}[r.Intn(4)]
+			if point == hChildKilled && !b.sc.child[a] {
+				point = hOwnKilled
+			}
+			o := sop{t: b.ms(t), actor: a, recv: a, ref: refs[r.Intn(len(refs))], valid: true}
+			if r.Chance(3, 10) {
+				o.recv = r.Intn(n)
+			}
+			switch x := r.Intn(10); {
+			case x < 4:
+				o.kind, o.d = kOnce, b.ms([]int{400, 800}[r.Intn(2)])
+				if point == hOnKill && slowDur > 0 {
+					o.d = b.ms(800)
+				}
+			case x < 8:
+				o.kind, o.d = kLoop, b.ms(400)
+				if point == hOnKill && slowDur > 0 {
+					o.d = b.ms(800)
+				}
+			case x < 9:
+				o.kind = kCancel
+			default:
+				o.kind = kExists
+			}
+			if o.kind <= kCron {
+				o.payload = b.next
+				b.next++
+			}
+			w[point] = append(w[point], o)
+		}
+		return &w
+	}
+	// the op that ends an episode is the last op of its slot: what it lets arrive has arrived before the next op
+	flush := func(slot int) {
+		for _, o := range pending[slot] {
+			b.sc.ops = append(b.sc.ops, o)
+			if o.kind == kKillEnd || (o.kind == kUnblock && o.inner == kKill) {
+				alive[o.actor] = false
+			}
+		}
+	}
+	for slot := 0; slot < slots || slot <= lastEnd; slot++ {
 		t := slot * 100
+		if slot >= slots {
+			flush(slot)
+			continue
+		}
 		k := r.Intn(3)
 		if slot == 0 && k == 0 {
 			k = 1
 		}
 		for ; k > 0; k-- {
-			a, ok := anyAlive()
+			a, ok := free(slot)
 			if !ok {
 				break
 			}
@@ -1051,35 +1956,84 @@ func random(r *lib.Rand) scenario {
 					}
 					b.sched(t, kLoop, name, recv, ref, iv)
 				default:
-					b.sched(t, kCron, name, recv, ref, 0)
-				}
-			} else {
-				x := r.Intn(100)
-				switch {
-				case x < 35:
-					ref := refs[r.Intn(len(refs))]
-					if r.Chance(1, 5) {
-						ref = "never"
+					if r.Chance(1, 2) {
+						b.cronExpr(t, name, recv, ref, cronMutant(r))
+					} else {
+						b.sched(t, kCron, name, recv, ref, 0)
 					}
-					b.op(t, kCancel, name, ref)
-				case x < 45:
-					b.op(t, kClear, name, "")
-				case x < 60:
-					b.op(t, kExists, name, refs[r.Intn(len(refs))])
-				case x < 72:
-					b.op(t, kDump, name, "")
-				case x < 80:
-					b.op(t, kKill, name, "")
-					alive[a] = false
-				case x < 90:
-					b.op(t, kRestart, name, "")
-				default:
+				}
+				continue
+			}
+			if r.Chance(1, 4) {
+				// an episode: a long handler, suspended Tell goroutines, or a stop sequence that waits for the child
+				switch x := r.Intn(10); {
+				case x < 5:
+					dur := []int{2, 4, 4, 6}[r.Intn(4)]
+					inner := []int{-1, kCancel, kCancel, kClear, kExists, kKill, kRestart}[r.Intn(7)]
+					b.sc.ops = append(b.sc.ops, sop{t: b.ms(t), kind: kBlock, actor: a})
+					later(slot+dur, sop{kind: kUnblock, actor: a, inner: inner, ref: refs[r.Intn(len(refs))]})
+					busy[a] = slot + dur + 1
+				case x < 8 && holds:
+					ref := refs[r.Intn(len(refs))]
+					if heldKeys[path(name)+"\x00"+ref] {
+						continue
+					}
+					heldKeys[path(name)+"\x00"+ref] = true
+					b.sc.ops = append(b.sc.ops, sop{t: b.ms(t), kind: kHold, actor: a, ref: ref})
+					later(slot+[]int{2, 4, 6}[r.Intn(3)], sop{kind: kRelease, actor: a, ref: ref})
+				case b.sc.child[a]:
+					dur := []int{2, 4}[r.Intn(2)]
+					w := will(a, t, dur)
+					b.sc.ops = append(b.sc.ops, sop{t: b.ms(t), kind: kKill, actor: a, will: w, slow: b.ms(dur * 100)})
+					later(slot+dur, sop{kind: kKillEnd, actor: a, slow: b.ms(dur * 100)})
+					busy[a] = slot + dur + 1
+				}
+				continue
+			}
+			x := r.Intn(100)
+			switch {
+			case x < 35:
+				ref := refs[r.Intn(len(refs))]
+				if r.Chance(1, 5) {
+					ref = "never"
+				}
+				b.op(t, kCancel, name, ref)
+			case x < 45:
+				b.op(t, kClear, name, "")
+			case x < 60:
+				b.op(t, kExists, name, refs[r.Intn(len(refs))])
+			case x < 72:
+				b.op(t, kDump, name, "")
+			case x < 80:
+				b.op(t, kKill, name, "")
+				if r.Chance(1, 2) {
+					b.sc.ops[len(b.sc.ops)-1].will = will(a, t, 0)
+				}
+				alive[a] = false
+			case x < 90:
+				b.op(t, kRestart, name, "")
+				if r.Chance(1, 2) {
+					b.sc.ops[len(b.sc.ops)-1].will = will(a, t, 0)
+				}
+			default:
+				if r.Chance(1, 2) {
+					for k := 0; k < 20; k++ {
+						if e := cronMutant(r); quartz.ValidateCronExpression(e) != nil {
+							b.cronExpr(t, name, name, refs[r.Intn(len(refs))], e)
+							break
+						}
+					}
+				} else {
 					b.badCron(t, name, refs[r.Intn(len(refs))])
 				}
 			}
 		}
+		flush(slot)
 	}
 	end := slots
+	if lastEnd+1 > end {
+		end = lastEnd + 1
+	}
 	if end%2 == 0 {
 		end++
 	}
@@ -1089,26 +2043,63 @@ func random(r *lib.Rand) scenario {
 
 func tname(sc scenario) string {
 	var sb strings.Builder
-	for _, o := range sc.ops {
+	var one func(o sop, at bool)
+	one = func(o sop, at bool) {
 		who := path(sc.actors[o.actor])
+		if at {
+			fmt.Fprintf(&sb, "%d:", o.t)
+		}
 		switch o.kind {
 		case kOnce, kLoop:
-			fmt.Fprintf(&sb, "%d:%s %s->%s %q %dms #%d; ", o.t, []string{"Once", "Loop"}[o.kind], who, path(sc.actors[o.recv]), o.ref, o.d, o.payload)
+			fmt.Fprintf(&sb, "%s %s->%s %q %dms #%d", []string{"Once", "Loop"}[o.kind], who, path(sc.actors[o.recv]), o.ref, o.d, o.payload)
 		case kCron:
-			fmt.Fprintf(&sb, "%d:Cron(valid=%v) %s %q #%d; ", o.t, o.valid, who, o.ref, o.payload)
+			fmt.Fprintf(&sb, "Cron(%q valid=%v) %s %q #%d", o.cron, o.valid, who, o.ref, o.payload)
 		case kCancel:
-			fmt.Fprintf(&sb, "%d:Cancel %s %q; ", o.t, who, o.ref)
+			fmt.Fprintf(&sb, "Cancel %s %q", who, o.ref)
 		case kClear:
-			fmt.Fprintf(&sb, "%d:Clear %s; ", o.t, who)
+			fmt.Fprintf(&sb, "Clear %s", who)
 		case kExists:
-			fmt.Fprintf(&sb, "%d:Exists %s %q; ", o.t, who, o.ref)
-		case kKill:
-			fmt.Fprintf(&sb, "%d:Kill %s; ", o.t, who)
-		case kRestart:
-			fmt.Fprintf(&sb, "%d:Restart %s; ", o.t, who)
+			fmt.Fprintf(&sb, "Exists %s %q", who, o.ref)
+		case kKill, kRestart:
+			fmt.Fprintf(&sb, "%s %s", map[int]string{kKill: "Kill", kRestart: "Restart"}[o.kind], who)
+			if o.slow > 0 {
+				fmt.Fprintf(&sb, " (its child ends %d ms later)", o.slow)
+			}
+			if o.will != nil {
+				for p, name := range []string{"OnKill handler", "child's OnKilled handler", "own OnKilled handler"} {
+					if len(o.will[p]) == 0 {
+						continue
+					}
+					fmt.Fprintf(&sb, " [%s: ", name)
+					for i, h := range o.will[p] {
+						if i > 0 {
+							sb.WriteString(", ")
+						}
+						one(h, false)
+					}
+					sb.WriteString("]")
+				}
+			}
+		case kKillEnd:
+			fmt.Fprintf(&sb, "the child of %s ends, the stop sequence completes", who)
 		case kDump:
-			fmt.Fprintf(&sb, "%d:Dump; ", o.t)
+			sb.WriteString("Dump")
+		case kBlock:
+			fmt.Fprintf(&sb, "%s enters a long handler", who)
+		case kUnblock:
+			in := map[int]string{-1: "", kCancel: fmt.Sprintf(" after Cancel %q in it", o.ref), kClear: " after Clear in it", kExists: fmt.Sprintf(" after Exists %q in it", o.ref), kKill: " with a Kill enqueued meanwhile", kRestart: " by panicking (restart)"}[o.inner]
+			fmt.Fprintf(&sb, "the long handler of %s ends%s", who, in)
+		case kHold:
+			fmt.Fprintf(&sb, "Tell goroutines of (%s, %q) suspended", who, o.ref)
+		case kRelease:
+			fmt.Fprintf(&sb, "Tell goroutines of (%s, %q) resumed", who, o.ref)
 		}
+		if at {
+			sb.WriteString("; ")
+		}
+	}
+	for _, o := range sc.ops {
+		one(o, true)
 	}
 	return sb.String()
 }
@@ -1128,6 +2119,7 @@ type childReport struct {
 	GapMs     int64       `json:"gap_ms"`
 	AtMs      []int64     `json:"at_ms"`   // delivery times, ms after the scheduling call returned
 	LiveMs    int64       `json:"live_ms"` // how long the job had been scheduled at the observation
+	Mask      uint64      `json:"mask"`    // internal observations this build does not offer (obsMask)
 }
 
 func cpuTime() time.Duration {
@@ -1153,7 +2145,7 @@ func childStall(loop bool) {
 		fmt.Println(`{"valid":false,"why":"start"}`)
 		return
 	}
-	r.sys, r.asys = sys, sys.(*actor.System)
+	r.sys = sys
 	_, _ = sys.ActorOf(vivid.ActorFN(r.deadLetters), vivid.WithActorName("c20-dead-letters"))
 	a := &sactor{r: r, launches: make(chan struct{}, 1), killed: make(chan struct{}, 1)}
 	ref, _ := sys.ActorOf(a, vivid.WithActorName("a"))
@@ -1190,9 +2182,10 @@ func childStall(loop bool) {
 	}
 	r.in(0, func(ctx vivid.ActorContext) {
 		rep.Exists = ctx.Scheduler().Exists("r")
-		rep.Refs = actor.XVSchedRefs(ctx)
+		rep.Refs = schedRefs(ctx)
 	})
-	rep.Keys = actor.XVQuartzKeys(r.asys)
+	rep.Keys = quartzKeys(r.sys)
+	rep.Mask = obsMask()
 	r.mu.Lock()
 	for _, d := range r.delivs {
 		if d.dead {
@@ -1207,7 +2200,7 @@ func childStall(loop bool) {
 	if os.Getenv("C20_STALL_DEBUG") != "" {
 		gone := time.Duration(-1)
 		for i := 0; i < 400 && gone < 0; i++ {
-			if len(actor.XVQuartzKeys(r.asys)) == 0 {
+			if len(quartzKeys(r.sys)) == 0 {
 				gone = time.Since(resumed)
 			}
 			time.Sleep(10 * time.Millisecond)
@@ -1231,7 +2224,7 @@ func childSpin() {
 	bs := newBuilder("spin", "a", "b")
 	bs.scale = 100
 	sc := bs.sched(0, kLoop, "a", "a", "l", -1000).sched(0, kOnce, "b", "b", "o", 300).done(1500)
-	r := &srun{sc: sc, deathAt: make([]time.Time, 2), sys: sys, asys: sys.(*actor.System)}
+	r := &srun{sc: sc, deathAt: make([]time.Time, 2), sys: sys}
 	for i, n := range sc.actors {
 		a := &sactor{r: r, idx: i, launches: make(chan struct{}, 1), killed: make(chan struct{}, 1)}
 		ref, _ := sys.ActorOf(a, vivid.WithActorName(n))
@@ -1369,7 +2362,263 @@ func raceProbe(trials int) (int, int) {
 	return after, ran
 }
 
+// ---- independence of jobs: a Tell that does not return must not delay the firings of other jobs ----
+// (go-quartz starts one goroutine per firing; vivid constructs it that way: no blocking execution, no worker limit.)
+// 64 Once(300 ms) jobs of /a are suspended in their Tell goroutines for 900 ms; meanwhile /b's Once(600 ms) and /b's Loop(150 ms) are due.
+// Judged on the property itself: the Once of /b must arrive (once), the Loop must keep its pace. An attempt during which the
+// process itself was late (watchdog) is repeated; only a failure of all attempts is reported.
+
+const indepHeld = 64 // so many Tell goroutines of /a are suspended at once
+
+type indepResult struct {
+	onceAt   []time.Duration
+	loopN    int
+	worstGap time.Duration
+	xAfter   bool
+	gap      bool
+}
+
+func indepAttempt() (res indepResult, ok bool) {
+	g := newGateSet()
+	silent := log.NewSilentLogger()
+	sys := bootstrap.NewActorSystem(vivid.WithActorSystemLogger(silent))
+	if err := sys.Start(); err != nil {
+		return res, false
+	}
+	defer func() {
+		g.releaseAll()
+		done := make(chan struct{})
+		go func() { _ = sys.Stop(); close(done) }()
+		select {
+		case <-done:
+		case <-time.After(3 * time.Second):
+		}
+	}()
+	var mu sync.Mutex
+	var t0 time.Time
+	var xs, ys, ls []time.Time
+	mk := func(name string, launch func(ctx vivid.ActorContext)) bool {
+		ready := make(chan struct{})
+		_, err := sys.ActorOf(vivid.ActorFN(func(ctx vivid.ActorContext) {
+			switch m := ctx.Message().(type) {
+			case *vivid.OnLaunch:
+				launch(ctx)
+				close(ready)
+			case fire:
+				now := time.Now()
+				mu.Lock()
+				switch m.p {
+				case 1:
+					xs = append(xs, now)
+				case 2:
+					ys = append(ys, now)
+				case 3:
+					ls = append(ls, now)
+				}
+				mu.Unlock()
+			}
+		}), vivid.WithActorName(name), vivid.WithActorLogger(&gateLogger{Logger: silent, g: g, owner: path(name)}))
+		if err != nil {
+			return false
+		}
+		select {
+		case <-ready:
+			return true
+		case <-time.After(opTimeout):
+			return false
+		}
+	}
+	for i := 0; i < indepHeld; i++ {
+		g.hold("/a", fmt.Sprintf("x%d", i))
+	}
+	t0 = time.Now()
+	if !mk("a", func(ctx vivid.ActorContext) {
+		for i := 0; i < indepHeld; i++ {
+			_ = ctx.Scheduler().Once(ctx.Ref(), 300*time.Millisecond, fire{1}, vivid.WithSchedulerReference(fmt.Sprintf("x%d", i)))
+		}
+	}) {
+		return res, false
+	}
+	if !mk("b", func(ctx vivid.ActorContext) {
+		_ = ctx.Scheduler().Once(ctx.Ref(), 600*time.Millisecond, fire{2}, vivid.WithSchedulerReference("y"))
+		_ = ctx.Scheduler().Loop(ctx.Ref(), 150*time.Millisecond, fire{3}, vivid.WithSchedulerReference("l"))
+	}) {
+		return res, false
+	}
+	time.Sleep(time.Until(t0.Add(1200 * time.Millisecond)))
+	held := t0.Add(1200 * time.Millisecond)
+	mu.Lock()
+	for _, y := range ys {
+		res.onceAt = append(res.onceAt, y.Sub(t0))
+	}
+	res.loopN = len(ls)
+	prev := t0.Add(300 * time.Millisecond)
+	for _, l := range ls {
+		if l.After(prev) {
+			if d := l.Sub(prev); d > res.worstGap {
+				res.worstGap = d
+			}
+			prev = l
+		}
+	}
+	if d := held.Sub(prev); d > res.worstGap {
+		res.worstGap = d
+	}
+	early := len(xs)
+	mu.Unlock()
+	g.releaseAll()
+	time.Sleep(300 * time.Millisecond)
+	mu.Lock()
+	res.xAfter = early == 0 && len(xs) == indepHeld
+	mu.Unlock()
+	_, res.gap = gapDuring(t0, time.Now())
+	return res, true
+}
+
+func indepCheck(o *lib.Out) {
+	var last indepResult
+	for attempt := 1; attempt <= 3; attempt++ {
+		res, ok := indepAttempt()
+		if !ok {
+			o.Info["independence"] = "not judged: the scenario could not be set up"
+			return
+		}
+		last = res
+		bad := len(res.onceAt) != 1 || res.worstGap > 450*time.Millisecond
+		if !bad {
+			o.Info["independence"] = fmt.Sprintf("while the Tell goroutines of %d Once jobs of /a were suspended for 900 ms: /b's Once(600 ms) arrived at %v, /b's Loop(150 ms) arrived %d times with gaps up to %v; /a's messages arrived only after the release: %v (attempt %d)", indepHeld, res.onceAt, res.loopN, res.worstGap, res.xAfter, attempt)
+			return
+		}
+		if res.gap {
+			continue // the process itself was late: not evidence
+		}
+	}
+	in := lib.L(lib.L(lib.N(15), lib.N(slotMs)), lib.L(lib.N(13), lib.S("/a"), lib.S("x")),
+		lib.L(lib.N(0), lib.S("/a"), lib.S("/a"), lib.S("x"), lib.Z(300), lib.N(1)),
+		lib.L(lib.N(0), lib.S("/b"), lib.S("/b"), lib.S("y"), lib.Z(600), lib.N(2)),
+		lib.L(lib.N(1), lib.S("/b"), lib.S("/b"), lib.S("l"), lib.Z(150), lib.N(3)),
+		lib.L(lib.N(8), lib.Z(1200)), lib.L(lib.N(14), lib.S("/a"), lib.S("x")), lib.L(lib.N(8), lib.Z(300)))
+	o.Monitor("c20-once-lost:behind-a-tell-in-flight", in, fmt.Sprintf("three attempts: the Tell goroutines of 64 Once(300 ms) jobs of /a were suspended from 300 ms to 1200 ms; in that time /b's Once(600 ms) arrived %d times (at %v; expected once, at 600 ms) and /b's Loop(150 ms) arrived %d times with a gap of %v (expected every 150 ms): one job's Tell that does not return keeps the other jobs of the system from firing (they are then dropped as outdated)", len(last.onceAt), last.onceAt, last.loopN, last.worstGap))
+}
+
+// ---- job keys: quartz.NewJobKeyWithGroup / JobKey.Equals and the actor's uniqueJobKey against Timer/SchedKey.v ----
+
+func keyCases(o *lib.Out, rnd *lib.Rand, n int) {
+	pool := []string{"", "default", "/", "/a", "/a:b", "/b", "a", ":", "::", "b:c", "c", "/a::", "::b", "r", "/a/k", "Default", "default ", "/default", "s"}
+	pick := func() string {
+		if rnd.Chance(1, 6) {
+			return string(rnd.Bytes(rnd.Intn(4)))
+		}
+		return pool[rnd.Intn(len(pool))]
+	}
+	for i := 0; i < n; i++ {
+		name, group := pick(), pick()
+		k := quartz.NewJobKeyWithGroup(name, group)
+		o.Case("key", group == "" || group == "default", lib.L(lib.N(17), lib.S(name), lib.S(group)), lib.L(lib.S(k.Group()), lib.S(k.Name())))
+		n2, g2 := pick(), pick()
+		if rnd.Chance(1, 3) {
+			n2 = name
+		}
+		if rnd.Chance(1, 3) {
+			g2 = group
+		}
+		eq := k.Equals(quartz.NewJobKeyWithGroup(n2, g2))
+		o.Case("key", eq, lib.L(lib.N(18), lib.S(name), lib.S(group), lib.S(n2), lib.S(g2)), lib.Bool(eq))
+	}
+	// the keys real actors get: names with ':' and "::", the name "default", the same reference on different actors
+	sys := bootstrap.NewActorSystem(vivid.WithActorSystemLogger(log.NewSilentLogger()))
+	if err := sys.Start(); err != nil {
+		o.Info["keys"] = "not judged: " + err.Error()
+		return
+	}
+	defer func() {
+		done := make(chan struct{})
+		go func() { _ = sys.Stop(); close(done) }()
+		select {
+		case <-done:
+		case <-time.After(3 * time.Second):
+		}
+	}()
+	if !obs.queue {
+		o.Info["keys"] = fmt.Sprintf("%d NewJobKeyWithGroup / Equals cases; the keys of real actors were not compared: the go-quartz queue of the system could not be located in this build", 2*n)
+		return
+	}
+	// the keys the code builds are read from the go-quartz queue: every (actor, reference) schedules a job that is never due
+	names := []string{"a", "a:b", "b", "default", "a::b", ":", "::", "k", "a:", ":b"}
+	refs := []string{"r", "c", "b:c", ":c", "::c", "b", "b::c", "default", ":", "::", ""}
+	type ent struct {
+		path string
+		ref  vivid.ActorRef
+	}
+	var ents []ent
+	for _, nm := range names {
+		ready := make(chan string, 1)
+		var e ent
+		ref, err := sys.ActorOf(vivid.ActorFN(func(ctx vivid.ActorContext) {
+			switch m := ctx.Message().(type) {
+			case *vivid.OnLaunch:
+				ready <- ctx.Ref().GetPath()
+			case do:
+				m.f(ctx)
+				close(m.done)
+			}
+		}), vivid.WithActorName(nm))
+		if err != nil {
+			continue
+		}
+		e.ref = ref
+		select {
+		case e.path = <-ready:
+			ents = append(ents, e)
+		case <-time.After(opTimeout):
+		}
+	}
+	collisions, compared := 0, 0
+	for _, e := range ents {
+		ref := e.ref
+		for _, rf := range refs {
+			before, _ := actor.XVQuartzKeys(sys)
+			var err error
+			d := do{f: func(ctx vivid.ActorContext) {
+				opt := vivid.WithSchedulerReference(rf)
+				if rf == "" { // WithSchedulerReference ignores "", WithScheduleOptions does not
+					opt = vivid.WithScheduleOptions(vivid.ScheduleOptions{Location: time.Local, Reference: ""})
+				}
+				err = ctx.Scheduler().Once(ctx.Ref(), time.Hour, fire{0}, opt)
+			}, done: make(chan struct{})}
+			sys.Tell(ref, d)
+			select {
+			case <-d.done:
+			case <-time.After(opTimeout):
+				continue
+			}
+			after, _ := actor.XVQuartzKeys(sys)
+			var fresh [][2]string
+			for _, k := range after {
+				if !hasKey(before, k[0], k[1]) {
+					fresh = append(fresh, k)
+				}
+			}
+			in := lib.L(lib.N(19), lib.S(e.path), lib.S(rf))
+			switch {
+			case err == nil && len(fresh) == 1:
+				compared++
+				o.Case("key", true, in, lib.L(lib.S(fresh[0][0]), lib.S(fresh[0][1])))
+			case err != nil && strings.Contains(err.Error(), "job already exists"):
+				collisions++
+				o.Monitor("c20-key-collision", in, fmt.Sprintf("Once(1 h) by actor %s under the reference %q, which this actor had not used, was refused with %v: its job key equals the key of a job of another (actor, reference) pair (queue: %v): Cancel / Clear / termination of one of them removes the other's job", e.path, rf, err, after))
+			case rf == "" && err != nil && len(fresh) == 0:
+				// the empty reference is refused (go-quartz: empty key name): nothing to compare
+			default:
+				o.Monitor("c20-key-collision", in, fmt.Sprintf("Once(1 h) by actor %s under the fresh reference %q returned %v and added %d keys to the go-quartz queue (expected: nil and exactly one new key)", e.path, rf, err, len(fresh)))
+			}
+		}
+	}
+	o.Info["keys"] = fmt.Sprintf("%d NewJobKeyWithGroup / Equals cases over strings from %d samples (empty group, \"default\", ':' and \"::\" in both parts) + the job keys of %d real actors x %d references (names and references with ':' and \"::\", the name \"default\"), read from the go-quartz queue and compared with Timer/SchedKey.v: %d compared, %d colliding pairs of different (actor, reference)", 2*n, len(pool), len(ents), len(refs), compared, collisions)
+}
+
 func main() {
+	probeObservations()
 	if len(os.Args) > 1 && os.Args[1] == "child-stall" {
 		childStall(false)
 		return
@@ -1387,7 +2636,22 @@ func main() {
 	rnd := lib.NewRand(f.Seed)
 	go watchdog()
 
-	scs := directed()
+	avail := func(b bool, what string) string {
+		if b {
+			return what + ": located"
+		}
+		return what + ": UNAVAILABLE in this build of vivid (projected out of every dump on both sides; all scenarios still run with the public-API observations)"
+	}
+	o.Info["internal_observations"] = avail(obs.refs, "the per-actor record of references (a map from string to *quartz.JobKey, or a []string, or a map with string keys, in the field of the context that implements vivid.Scheduler)") +
+		"; " + avail(obs.queue, "the go-quartz queue (GetJobKeys of the field that implements quartz.Scheduler, at most two structs below the actor system)")
+	holds := hookPresent()
+	if holds {
+		o.Info["hold_control"] = "the Debug line \"" + triggerLine + "\" of Scheduler.tell is present: Tell goroutines can be suspended between go-quartz's pop and the Tell"
+	} else {
+		o.Info["hold_control"] = "the Debug line \"" + triggerLine + "\" of Scheduler.tell was not seen: scenarios that suspend Tell goroutines are left out (long-handler and stop-sequence scenarios still run)"
+	}
+	scs := append(directed(), directedFlight(holds)...)
+	nDirected := len(scs)
 	n := 260
 	if f.Tier == "thorough" {
 		n = 5000
@@ -1396,7 +2660,7 @@ func main() {
 		n = f.N
 	}
 	for i := 0; i < n; i++ {
-		scs = append(scs, random(rnd.Fork()))
+		scs = append(scs, random(rnd.Fork(), holds))
 	}
 	workers := 40
 	outs := make([]*outcome, len(scs))
@@ -1467,7 +2731,36 @@ func main() {
 			o.Monitor(h.name, oc.in, h.detail+" || scenario: "+tname(oc.sc))
 		}
 	}
-	o.Info["scenarios"] = fmt.Sprintf("%d directed + %d seeded random scenarios (1-3 actors from {a, a:b, b, x, y}, references from {r, s, c, b:c}, 12-21 slots of %d ms (delays and intervals multiples of 4 slots), Once/Loop/Cron/Cancel/Clear/Exists/kill/restart/invalid Cron/dumps), each on its own ActorSystem, %d at a time", len(directed()), n, slotMs, workers)
+	cronValid, cronInvalid := map[string]bool{}, map[string]bool{}
+	episodes := map[string]int{}
+	for _, sc := range scs {
+		for _, op := range sc.ops {
+			switch op.kind {
+			case kCron:
+				if op.cron != "" {
+					if op.valid {
+						cronValid[op.cron] = true
+					} else {
+						cronInvalid[op.cron] = true
+					}
+				}
+			case kBlock:
+				episodes["long handlers"]++
+			case kHold:
+				episodes["suspended Tell goroutines"]++
+			case kKill, kRestart:
+				if op.will != nil {
+					episodes["stop sequences whose handlers call the scheduler"]++
+				}
+				if op.slow > 0 {
+					episodes["stop sequences that wait for the child"]++
+				}
+			}
+		}
+	}
+	o.Info["cron"] = fmt.Sprintf("%d distinct invalid and %d distinct valid (year 2099) expressions from the mutation corpus were passed to Cron; go-quartz's ValidateCronExpression is the oracle bit given to the model", len(cronInvalid), len(cronValid))
+	o.Info["episodes"] = fmt.Sprintf("%v", episodes)
+	o.Info["scenarios"] = fmt.Sprintf("%d directed + %d seeded random scenarios (1-3 actors from {a, a:b, b, x, y}, references from {r, s, c, b:c}, 12-21 slots of %d ms (delays and intervals multiples of 4 slots), Once/Loop/Cron/Cancel/Clear/Exists/kill/restart/invalid Cron/dumps), each on its own ActorSystem, %d at a time", nDirected, n, slotMs, workers)
 	reasons := map[string]int{}
 	for _, oc := range outs {
 		for _, d := range oc.disturbed {
@@ -1496,7 +2789,10 @@ func main() {
 
 	// (d) the process is suspended across the instant of a Once
 	st := <-stallCh
-	stallIn := lib.L(
+	if st.rep != nil && st.rep.Mask != obsMask() {
+		st.err = fmt.Errorf("the child process located other internal observations (mask %d) than this process (mask %d)", st.rep.Mask, obsMask())
+	}
+	stallIn := lib.L(lib.L(lib.N(15), lib.N(slotMs), lib.N(obsMask())),
 		lib.L(lib.N(0), lib.S("/a"), lib.S("/a"), lib.S("r"), lib.Z(800), lib.N(1)),
 		lib.L(lib.N(9), lib.Z(2200)), lib.L(lib.N(8), lib.Z(1800)),
 		lib.L(lib.N(5), lib.S("/a"), lib.S("r")), lib.L(lib.N(10), lib.L(lib.S("/a"))))
@@ -1508,8 +2804,16 @@ func main() {
 		for i, s := range rep.Refs {
 			refs[i] = lib.S(s)
 		}
-		out := lib.L(lib.L(lib.N(0), lib.N(4), lib.N(4), lib.L(lib.Bool(rep.Exists)), lib.L(lib.L(lib.L(lib.S("/a"), lib.LS(refs))), keysTerm(rep.Keys))),
-			lib.L(lib.L(lib.NI(rep.Delivered), lib.NI(rep.Dead))))
+		jksT, keysT := lib.L(), lib.L()
+		if obs.refs {
+			jksT = lib.L(lib.L(lib.S("/a"), lib.LS(refs)))
+		}
+		if obs.queue {
+			keysT = keysTerm(rep.Keys)
+		}
+		// (the stall scenario has no arrivals: per call (delivered dead ()) - a delivery would show as a count mismatch)
+		out := lib.L(lib.L(lib.N(0), lib.N(4), lib.N(4), lib.L(lib.Bool(rep.Exists)), lib.L(jksT, keysT)),
+			lib.L(lib.L(lib.NI(rep.Delivered), lib.NI(rep.Dead), lib.L())), lib.N(0))
 		o.Case("stall", true, stallIn, out)
 		o.Info["stall"] = fmt.Sprintf("process suspended for %d ms across the instant of Once(800 ms): delivered %d, dead-lettered %d, Exists %v, quartz queue %v %s", rep.GapMs, rep.Delivered, rep.Dead, rep.Exists, rep.Keys, rep.Why)
 		if rep.Delivered+rep.Dead == 0 {
@@ -1541,6 +2845,14 @@ func main() {
 				lib.L(lib.N(0), lib.S("/b"), lib.S("/b"), lib.S("o"), lib.Z(300), lib.N(2)), lib.L(lib.N(8), lib.Z(1500)))
 			o.Monitor("c20-once-lost:spin", spinIn, fmt.Sprintf("Loop with interval -1 s on /a; Once(300 ms) on /b returned nil and was delivered %d times within 1.5 s (loop deliveries %d); the process used %d ms of CPU: the quartz loop spins on the outdated SimpleTrigger and every other job becomes outdated behind it", sp.rep.Delivered, sp.rep.LoopCount, sp.rep.CPUms))
 		}
+	}
+	nk := 400
+	if f.Tier == "thorough" {
+		nk = 4000
+	}
+	keyCases(o, rnd.Fork(), nk)
+	if holds {
+		indepCheck(o)
 	}
 	trials := 60
 	if f.Tier == "thorough" {
